@@ -45,6 +45,8 @@ import (
 //   lt.merge <maxVal> <ints (',') per sequence ('_' = empty), sequences separated by '|'>      pkg/losertree on integers
 //       (an element is key*16 + sequence index and `less` compares keys only, so that tie-breaking is observable)
 //       -> <merged ints> closed=<sequence indices in close order>
+//   ring.run <maxBuffered> <a<k> | p (',' …)>        the ring buffer of lazyRespSet through hooks (append skipped when
+//       -> <popped values> h=<ringHead> t=<ringTail>       full - the producer would block -, pop skipped when empty)
 //   merge.dedup <frame (';' frame)*>               NewResponseDeduplicator over a fixed stream
 //       -> <frames>
 //   merge.series <lazy> <bufsize> <batch> <limit> <abort> <dedup> <sharded> <without names | -> <stores>     ProxyStore.Series
@@ -751,6 +753,48 @@ func execC03(c *hlib.Ctx, tok []string) string {
 			c.Violation("losertree-lost-or-invented", fmt.Sprintf("%d elements in, %d out", total, len(out)))
 		}
 		return hlib.Join(out, ",") + " closed=" + hlib.Join(closed, ",")
+	case "ring.run":
+		if len(tok) != 3 {
+			return "bad-op"
+		}
+		size, err := strconv.Atoi(tok[1])
+		if err != nil || size < 0 || size > 64 {
+			return "bad-op"
+		}
+		rb := store.VerifNewRingBuffer(size)
+		var popped []string
+		var queue []string // the oracle: a FIFO of capacity size
+		for _, op := range hlib.Split(tok[2], ",") {
+			switch {
+			case op == "p":
+				if rb.IsEmpty() != (len(queue) == 0) {
+					c.Violation("ring-empty-test", fmt.Sprintf("isEmpty=%v with %d queued", rb.IsEmpty(), len(queue)))
+				}
+				if rb.IsEmpty() {
+					continue
+				}
+				v := rb.Pop().GetWarning()
+				popped = append(popped, v)
+				if len(queue) == 0 || queue[0] != v {
+					c.Violation("ring-not-fifo", fmt.Sprintf("popped %s, queue %v", v, queue))
+				} else {
+					queue = queue[1:]
+				}
+			case strings.HasPrefix(op, "a"):
+				if rb.IsFull() != (len(queue) == size) {
+					c.Violation("ring-full-test", fmt.Sprintf("isFull=%v with %d queued of %d", rb.IsFull(), len(queue), size))
+				}
+				if rb.IsFull() {
+					continue // the producer would block here
+				}
+				rb.Append(&storepb.SeriesResponse{Result: &storepb.SeriesResponse_Warning{Warning: op[1:]}})
+				queue = append(queue, op[1:])
+			default:
+				return "bad-op"
+			}
+		}
+		h, t := rb.HeadTail()
+		return fmt.Sprintf("%s h=%d t=%d", hlib.Join(popped, ","), h, t)
 	case "merge.dedup":
 		if len(tok) != 2 {
 			return "bad-op"
@@ -1242,6 +1286,21 @@ func genDedupStream(c *hlib.Ctx) string {
 	return "merge.dedup " + hlib.Join(frames, ";")
 }
 
+func genRing(c *hlib.Ctx) string {
+	r := c.R
+	size := []int{0, 1, 2, 3, 7}[r.Intn(5)]
+	var ops []string
+	for k := r.Range(0, 30); k > 0; k-- {
+		if r.Chance(3, 5) {
+			ops = append(ops, fmt.Sprintf("a%d", r.Intn(1000)))
+		} else {
+			ops = append(ops, "p")
+		}
+	}
+	c.Count(fmt.Sprintf("ring:size%d", size))
+	return fmt.Sprintf("ring.run %d %s", size, hlib.Join(ops, ","))
+}
+
 func genC03(c *hlib.Ctx) {
 	n := c.N(1500, 40000)
 	for i := 0; i < n; i++ {
@@ -1249,6 +1308,7 @@ func genC03(c *hlib.Ctx) {
 		if i%3 == 0 {
 			c.Do(genLtMerge(c), true)
 			c.Do(genDedupStream(c), true)
+			c.Do(genRing(c), true)
 		}
 	}
 }
